@@ -88,9 +88,11 @@ theorem der_safe {Kn : Tm → Prop} (h : ∀ t, Kn t → safe t) : ∀ {t}, Der 
 /-- the premaster secret the accessory computes -/
 def sessS (salt b A : Tm) : Tm := if A = zero then zero else skey salt b A
 
-/-- the proof the accessory expects for `A` (a hash over public values and `H(S)`) -/
+/-- the proof the accessory expects for `A`: `H(H(N) xor H(g) ‖ H(I) ‖ salt ‖ A ‖ B ‖ H(S))`, the public
+    group/user prefix being the constant `nonce 0` (the term mirrors the byte format field by field, see
+    `Proofs/PairSetupHybrid.lean`: its denotation IS the executable model's expected proof) -/
 def expM (salt b A : Tm) : Tm :=
-  hsh (pair (pair salt A) (pair (bval salt b) (hsh (sessS salt b A))))
+  hsh (pair (nonce 0) (pair salt (pair A (pair (bval salt b) (hsh (sessS salt b A))))))
 
 /-- the accessory's own proof -/
 def hamk (salt b A : Tm) : Tm := hsh (pair A (pair (expM salt b A) (hsh (sessS salt b A))))
@@ -184,7 +186,7 @@ theorem sym_legacy_attack : ∃ s, Reach false init s ∧ s.paired = some (nonce
   have dM : Der s1.kn (expM salt b zero) := by
     unfold expM sessS
     simp only [if_true]
-    exact Der.hsh (Der.pair (Der.pair (dn 4) Der.zero) (Der.pair dB (Der.hsh Der.zero)))
+    exact Der.hsh (Der.pair (dn 0) (Der.pair (dn 4) (Der.pair Der.zero (Der.pair dB (Der.hsh Der.zero)))))
   let s2 : SState := { s1 with kn := learn s1.kn (hamk salt b zero), lastA := some zero, verified := true }
   have r2 : Reach false init s2 :=
     Reach.step r1 (Step.m3ok s1 salt b zero _ rfl rfl Der.zero dM rfl (by intro h; cases h))
